@@ -126,6 +126,21 @@ func (f *fn) isLocal(id *ast.Ident) bool {
 	return ok
 }
 
+// this.settings(): the accessor introduced by the repair of the settings race; the translator
+// reads `this.settings().f` as `this.conf.f` and transcribes the accessor's body as a fact.
+func isSettingsCall(e ast.Expr) bool {
+	c, ok := e.(*ast.CallExpr)
+	if !ok || len(c.Args) != 0 {
+		return false
+	}
+	sel, ok := c.Fun.(*ast.SelectorExpr)
+	if !ok || sel.Sel.Name != "settings" {
+		return false
+	}
+	id, ok := sel.X.(*ast.Ident)
+	return ok && id.Name == "this"
+}
+
 type renderer struct {
 	f     *fn
 	names map[*ast.Object]int
@@ -184,6 +199,9 @@ func (r *renderer) expr(e ast.Expr) string {
 	case *ast.StarExpr:
 		return "*" + r.expr(x.X)
 	case *ast.SelectorExpr:
+		if isSettingsCall(x.X) {
+			return "this.conf." + x.Sel.Name // this.settings() is a locked copy of this.conf (see settingsAccessor)
+		}
 		return r.expr(x.X) + "." + x.Sel.Name
 	case *ast.CallExpr:
 		s := r.expr(x.Fun) + "(" + r.exprs(x.Args)
@@ -325,6 +343,9 @@ func (c *irCtx) path(e ast.Expr) (string, bool) {
 		}
 		return x.Name, true
 	case *ast.SelectorExpr:
+		if isSettingsCall(x.X) {
+			return "this.conf." + x.Sel.Name, true
+		}
 		if p, ok := c.path(x.X); ok {
 			return p + "." + x.Sel.Name, true
 		}
@@ -651,6 +672,41 @@ func main() {
 	order := "unknown"
 	setMax := int64(-1)
 
+	var accessor []string
+	writersLocked := true
+	hasAccessor := false
+	for _, d := range fl.Decls {
+		if fd, ok := d.(*ast.FuncDecl); ok && fd.Body != nil && fd.Name.Name == "settings" {
+			hasAccessor = true
+			f := analyse(fd)
+			for _, st := range fd.Body.List {
+				switch x := st.(type) {
+				case *ast.ExprStmt:
+					accessor = append(accessor, f.render(x.X))
+				case *ast.DeferStmt:
+					accessor = append(accessor, "defer "+f.render(x.Call))
+				case *ast.ReturnStmt:
+					accessor = append(accessor, "return "+f.newRenderer().exprs(x.Results))
+				default:
+					accessor = append(accessor, "other")
+				}
+			}
+		}
+	}
+	for _, d := range fl.Decls {
+		if fd, ok := d.(*ast.FuncDecl); ok && fd.Body != nil && (fd.Name.Name == "SetLevel" || fd.Name.Name == "ApplyConfig") && hasAccessor {
+			f := analyse(fd)
+			ok2 := false
+			if len(fd.Body.List) >= 2 {
+				a, ok1 := fd.Body.List[0].(*ast.ExprStmt)
+				b, okb := fd.Body.List[1].(*ast.DeferStmt)
+				ok2 = ok1 && okb && f.render(a.X) == "this.confLock.Lock()" && f.render(b.Call) == "this.confLock.Unlock()"
+			}
+			if !ok2 {
+				writersLocked = false
+			}
+		}
+	}
 	for _, d := range fl.Decls {
 		fd, ok := d.(*ast.FuncDecl)
 		if !ok || fd.Body == nil || !relevant[fd.Name.Name] {
@@ -863,6 +919,14 @@ func main() {
 	table("gates", "String × String × String", gates)
 	table("methods", "String × String × String", methods)
 	fmt.Fprintf(&b, "def processOrder : String := %s\n\n", lit(order))
+	{
+		var q2 []string
+		for _, a := range accessor {
+			q2 = append(q2, lit(a))
+		}
+		fmt.Fprintf(&b, "def settingsAccessor : List String := [%s]\n\n", strings.Join(q2, ", "))
+		fmt.Fprintf(&b, "def settingsWritersLocked : Bool := %v\n\n", writersLocked)
+	}
 	var cn []string
 	for _, n := range []string{"LOG_LEVEL_ERROR", "LOG_LEVEL_WARN", "LOG_LEVEL_INFO", "LOG_LEVEL_DEBUG", "defaultLogIDPrefixLength", "MILLIS_PER_MINUTE", "MILLIS_PER_DAY"} {
 		v, ok := cs[n]
